@@ -4,6 +4,7 @@ import (
 	"context"
 	"encoding/json"
 	"fmt"
+	"runtime/debug"
 	"sort"
 	"strings"
 	"sync/atomic"
@@ -157,6 +158,18 @@ var tokens4 = []string{"bank", "users", "007", "x7"}
 
 var varsIDMenu = []VarOpt{{Label: "id"}, {Label: "id", Pat: Pat3Digits}}
 
+// spineAddresses: every address of < maxLen segments over the 4 tokens, and every address
+// of exactly maxLen segments whose first segment is `bank` (the spine's root).
+func spineAddresses(maxLen int) []string {
+	var out []string
+	for _, a := range Addresses(tokens4, maxLen) {
+		if strings.Count(a, ":") < maxLen-1 || strings.HasPrefix(a, "bank:") {
+			out = append(out, a)
+		}
+	}
+	return out
+}
+
 // spine: root {bank: any node of height<=h (size<=maxSize), users?: leaf}, inner fixed key "users"
 func spineFamily(name string, metas []MetaOpt, height, maxSize, addrLen int, db int) chartFamily {
 	m := Menu{Fixed: []string{"users"}, Vars: varsIDMenu, Metas: metas}
@@ -164,8 +177,8 @@ func spineFamily(name string, metas []MetaOpt, height, maxSize, addrLen int, db 
 	leaves := m.Nodes(0, 1)
 	k := 1 + len(leaves)
 	return chartFamily{
-		Name: name,
-		Desc: fmt.Sprintf("root {bank: every segment tree of height<=%d and <=%d segments over fixed child `users`, variable child `$id` without/with pattern %s, account via leaf or .self, %d .metadata choices; optional second root `users` leaf (%d choices)}", height, maxSize, Pat3Digits.Re, len(metas), len(leaves)),
+		Name:  name,
+		Desc:  fmt.Sprintf("root {bank: every segment tree of height<=%d and <=%d segments over fixed child `users`, variable child `$id` without/with pattern %s, account via leaf or .self, %d .metadata choices; optional second root `users` leaf (%d choices)}", height, maxSize, Pat3Digits.Re, len(metas), len(leaves)),
 		Count: len(nodes) * k,
 		At: func(i int) Chart {
 			c := Chart{"bank": nodes[i/k]}
@@ -174,7 +187,7 @@ func spineFamily(name string, metas []MetaOpt, height, maxSize, addrLen int, db 
 			}
 			return c
 		},
-		Addrs: Addresses(tokens4, addrLen),
+		Addrs: spineAddresses(addrLen),
 		DB:    db,
 	}
 }
@@ -554,7 +567,8 @@ func (c *c30) dbBatch(ctx context.Context, boot *pgsim.DB, items []dbItem) {
 }
 
 func runC30() int {
-	r := ev.Start("C30", ev.LevelExploration, 90*time.Second, 10*time.Minute)
+	r := ev.Start("C30", ev.LevelExploration, 150*time.Second, 30*time.Minute)
+	defer debug.SetGCPercent(debug.SetGCPercent(400)) // allocation-heavy (the implementation allocates an error per rejected address)
 	ctx := context.Background()
 	c := &c30{r: r, st: &c30Stats{structOnlyDiffs: newCounter(), stages: newCounter()}, samples: ev.NewSamples(6)}
 
@@ -677,7 +691,7 @@ func runC30() int {
 		"structural_differences_without_change_of_meaning": st.structOnlyDiffs.snapshot(),
 		"fixed_precedence_differs_from_existential_match":  st.existentialDiffers.Load(),
 		"rule": "every chart of each family (complete enumeration of the stated menu and bounds) is written as JSON by the harness and built as Go structs; " +
-			"evaluation = one (chart, address, stage) comparison of FindAccountSchema (accepted/rejected + default metadata) over every address of <=4 segments over the token alphabet {bank, users, 007, x7}; " +
+			"evaluation = one (chart, address, stage) comparison of FindAccountSchema (accepted/rejected + default metadata) over every address of <=4 segments over the token alphabet {bank, users, 007, x7} (spine families: every address of <=3 segments plus every 4-segment address under `bank`; special family: 8 tokens incl. the empty segment); " +
 			"stages: reference matcher vs implementation (JSON form and Go form); JSON marshal->unmarshal->marshal (stable bytes, same classification) of both forms; SchemaData marshal/unmarshal with transaction and query templates; " +
 			"InsertSchema through the real controller on pgsim then GetSchema (same process), GetSchema + ListSchemas + INSERTED_SCHEMA log payload from a freshly attached stack; templates and query templates compared as JSON documents. " +
 			"distinct_nontrivial = charts that accept at least one and reject at least one address of the menu",
